@@ -123,6 +123,7 @@ func VerifyFuncX(P *Program, DB *ContractDB, fc *FuncContract, safety bool, excu
 	}
 	f.lets = lets
 	pre := B.define("pre", "Bool", cond)
+	f.preTerm = pre
 	// vacuity guard: precondition must be satisfiable
 	vo := f.addObl("vacuity", "requires-sat", pre, "false", nil, fn.Pos(), fc.Props)
 	vo.Expect = "sat"
